@@ -195,4 +195,87 @@ Qed.
 Lemma mat_mul_guard (a b : matrix) : cols a <> rows b -> mat_mul a b = Panic Guard.
 Proof. intros H; unfold mat_mul. now destruct (Nat.eqb_spec (cols a) (rows b)). Qed.
 
+
+(* ---------- transpose_in_place ---------- *)
+(* square branch: for i, for j in i+1..n: swap (i,j) <-> (j,i), in place *)
+Lemma transpose_sq_msp n f (m : matrix) : msp n n f m ->
+  exists m', transpose_in_place m = Ok m' /\ msp n n (fun i j => f j i) m'.
+Proof.
+  intros Hm. pose proof Hm as (_ & Hr & Hc & _). unfold transpose_in_place.
+  rewrite Hr, Hc, Nat.eqb_refl.
+  destruct (for_msp n n (fun k i j => if Nat.min i j <? k then f j i else f i j) 0 n
+     (fun i s => for_ (i + 1) (cols s) (fun j s =>
+        let* temp := mget s i j in let* old := mget s j i in
+        let* m1 := mset s j i temp in mset m1 i j old) s) m) as (m' & E & Hm'); [lia| | |].
+  - eapply msp_ext; [exact Hm|]. intros; bdestr.
+  - intros k s Hk Hs. pose proof Hs as (_ & _ & Hcs & _). rewrite Hcs.
+    destruct (for_msp n n
+       (fun q i j => if (Nat.min i j <? k) || ((Nat.min i j =? k) && (Nat.max i j <? q)) then f j i else f i j)
+       (k + 1) n
+       (fun j s => let* temp := mget s k j in let* old := mget s j k in
+                   let* m1 := mset s j k temp in mset m1 k j old) s) as (s' & E' & Hs'); [lia| | |].
+    + eapply msp_ext; [exact Hs|]. intros i j Hi Hj. bdestr; f_equal; lia.
+    + intros q t Hq Ht.
+      assert (Hkn : k < n) by lia. assert (Hqn : q < n) by lia.
+      rewrite (mget_msp n n _ t k q Ht Hkn Hqn), (mget_msp n n _ t q k Ht Hqn Hkn). cbn [bind].
+      match goal with |- context [mset t q k ?x] =>
+        destruct (mset_msp n n _ t q k x Ht Hqn Hkn) as (t1 & E1 & Ht1) end.
+      rewrite E1. cbn [bind].
+      match goal with |- context [mset t1 k q ?x] =>
+        destruct (mset_msp n n _ t1 k q x Ht1 Hkn Hqn) as (t2 & E2 & Ht2) end.
+      exists t2; split; [exact E2|]. eapply msp_ext; [exact Ht2|].
+      intros i j Hi Hj. unfold upd_fn. cbn beta.
+      destruct (Nat.eqb_spec i k) as [->|Hik]; destruct (Nat.eqb_spec j q) as [->|Hjq]; cbn [andb].
+      * bdestr.
+      * destruct (Nat.eqb_spec k q); [lia|]. cbn [andb]. bdestr; f_equal; lia.
+      * destruct (Nat.eqb_spec i q) as [->|Hiq]; destruct (Nat.eqb_spec q k); cbn [andb]; try lia; bdestr; f_equal; lia.
+      * destruct (Nat.eqb_spec i q) as [->|Hiq]; destruct (Nat.eqb_spec j k) as [->|Hjk]; cbn [andb];
+          bdestr; f_equal; lia.
+    + exists s'; split; [exact E'|]. eapply msp_ext; [exact Hs'|]. intros i j Hi Hj. bdestr; f_equal; lia.
+  - exists m'; split; [exact E|]. eapply msp_ext; [exact Hm'|]. intros i j Hi Hj. bdestr; f_equal; lia.
+Qed.
+
+
+(* non-square branch: temp = []; for j < cols, for i < rows: temp.push(self[(i,j)]); swap(rows, cols) *)
+Lemma transpose_nsq_msp r c f (m : matrix) : msp r c f m -> r <> c ->
+  exists m', transpose_in_place m = Ok m' /\ msp c r (fun i j => f j i) m'.
+Proof.
+  intros Hm Hne. pose proof Hm as (_ & Hr & Hc & _). unfold transpose_in_place.
+  rewrite Hr, Hc. destruct (Nat.eqb_spec r c) as [Hx|_]; [contradiction|].
+  destruct (for_inv (fun j acc => length acc = j * r /\
+               forall j' i', j' < j -> i' < r -> nth (j' * r + i') acc zero = f i' j') 0 c
+     (fun j acc => for_ 0 r (fun i acc => let* x := mget m i j in Ok (acc ++ [x])) acc) [])
+    as (temp & E & Hlen & Htemp); [lia| | |].
+  - split; auto. intros; lia.
+  - intros j acc Hj (Hl & Ha).
+    destruct (for_inv (fun i acc => length acc = j * r + i /\
+               forall j' i', i' < r -> (j' < j \/ (j' = j /\ i' < i)) -> nth (j' * r + i') acc zero = f i' j') 0 r
+       (fun i acc => let* x := mget m i j in Ok (acc ++ [x])) acc) as (acc' & E' & Hl' & Ha'); [lia| | |].
+    + split; [lia|]. intros j' i' Hi' [Hj'|[_ Hx]]; [|lia]. apply Ha; auto.
+    + intros i t Hi (Hlt & Ht). rewrite (mget_msp r c f m i j Hm (proj2 Hi) (proj2 Hj)). cbn [bind].
+      eexists; split; [reflexivity|]. split.
+      * rewrite app_length; cbn; lia.
+      * intros j' i' Hi' Hcase.
+        destruct (Nat.eq_dec (j' * r + i') (j * r + i)) as [Heq|Hneq].
+        -- apply idx_inj in Heq as [-> ->]; try lia.
+           rewrite app_nth2 by lia. now rewrite Hlt, Nat.sub_diag.
+        -- assert (Hlt' : j' * r + i' < j * r + i).
+           { destruct Hcase as [Hj'|[-> Hi'']]; [nia|lia]. }
+           rewrite app_nth1 by lia. apply Ht; auto.
+           destruct Hcase as [Hj'|[-> Hi'']]; [left; auto|right; split; auto; lia].
+    + exists acc'; split; [exact E'|]. split; [lia|].
+      intros j' i' Hj' Hi'. apply Ha'; auto.
+      destruct (Nat.eq_dec j' j) as [->|]; [right; split; auto|left; lia].
+  - rewrite E. cbn [bind]. eexists; split; [reflexivity|].
+    unfold msp, wf, entry; cbn [buf rows cols]. repeat split; auto.
+Qed.
+
+Lemma transpose_in_place_msp r c f (m : matrix) : msp r c f m ->
+  exists m', transpose_in_place m = Ok m' /\ msp c r (fun i j => f j i) m'.
+Proof.
+  intros Hm. destruct (Nat.eq_dec r c) as [->|Hne].
+  - now apply transpose_sq_msp.
+  - now apply transpose_nsq_msp.
+Qed.
+
 End MatArith.
